@@ -728,6 +728,36 @@ func runC18(r *Run) {
 	r.rule("R10", "removing the current element of a forward index loop steps the index back, so the element that moved into the slot is examined too (E10)", func() {
 		n := 0
 		r.P.AllFuncs(cliPkg, func(f *ssa.Function) {
+			type removal struct {
+				at  ssa.Instruction
+				idx ssa.Value
+			}
+			var rems []removal
+			// removal by overwriting: slot i receives another element of the same slice (swap with the last one)
+			for _, b := range f.Blocks {
+				for _, in := range b.Instrs {
+					st, ok := in.(*ssa.Store)
+					if !ok {
+						continue
+					}
+					dst, ok := st.Addr.(*ssa.IndexAddr)
+					if !ok {
+						continue
+					}
+					ld, ok := st.Val.(*ssa.UnOp)
+					if !ok || ld.Op != token.MUL {
+						continue
+					}
+					src, ok := ld.X.(*ssa.IndexAddr)
+					if !ok || !sameValue(src.X, dst.X) || sameValue(src.Index, dst.Index) {
+						continue
+					}
+					if _, isSlice := dst.X.Type().Underlying().(*types.Slice); !isSlice {
+						continue
+					}
+					rems = append(rems, removal{in, dst.Index})
+				}
+			}
 			for _, c := range callsIn(f, false) {
 				var idx ssa.Value
 				switch {
@@ -751,6 +781,13 @@ func runC18(r *Run) {
 				default:
 					continue
 				}
+				rems = append(rems, removal{c.Instr, idx})
+			}
+			for _, rm := range rems {
+				idx := rm.idx
+				c := struct {
+					Instr ssa.Instruction
+				}{rm.at}
 				ph, ok := idx.(*ssa.Phi)
 				if !ok {
 					continue // not a loop index (e.g. an index found by a search, followed by return/break)
@@ -772,7 +809,7 @@ func runC18(r *Run) {
 				n++
 				stepsBack := dependsOn(back, func(v ssa.Value) bool {
 					bo, ok := v.(*ssa.BinOp)
-					return ok && bo.Op == token.SUB && bo.X == ssa.Value(ph) && isConstInt(bo.Y, 1) && (dom(c.Block(), bo.Block()) || bo.Block() == c.Block())
+					return ok && bo.Op == token.SUB && bo.X == ssa.Value(ph) && isConstInt(bo.Y, 1) && (dom(c.Instr.Block(), bo.Block()) || bo.Block() == c.Instr.Block())
 				}) != nil
 				r.check(stepsBack, fmt.Sprintf("%s:remove-at-index#%d:steps-back", short(f.String()), n), r.pos(c.Instr), "after the removal the index is decremented before the loop increments it",
 					"the element at index i is removed and the loop goes on to i+1: the element that moved into slot i is never examined — of two adjacent expired cookies the second stays in the jar and keeps being sent")
@@ -805,6 +842,50 @@ func runC18(r *Run) {
 				}
 			}
 		}
+		// … and the order they are put into is total on distinct keys: the comparator looks at the keys themselves,
+		// not only at a quantity several keys share (their length) — ties would keep the map's order
+		total, sorts := false, 0
+		isStr := func(v ssa.Value) bool {
+			b, ok := v.Type().Underlying().(*types.Basic)
+			return ok && b.Info()&types.IsString != 0
+		}
+		comparesStrings := func(g *ssa.Function) bool {
+			for _, b := range g.Blocks {
+				for _, in := range b.Instrs {
+					switch x := in.(type) {
+					case *ssa.BinOp:
+						if (x.Op == token.LSS || x.Op == token.GTR || x.Op == token.LEQ || x.Op == token.GEQ) && isStr(x.X) {
+							return true
+						}
+					case *ssa.Call:
+						n := calleeName(&x.Call)
+						if n == "strings.Compare" || (strings.HasPrefix(n, "cmp.Compare") && len(x.Call.Args) == 2 && isStr(x.Call.Args[0])) {
+							return true
+						}
+					}
+				}
+			}
+			return false
+		}
+		for _, c := range callsIn(v, false) {
+			switch {
+			case c.Name == "sort.Strings", strings.HasPrefix(c.Name, "slices.Sort["), c.Name == "slices.Sort":
+				sorts++
+				total = true
+			case c.Name == "sort.Slice", c.Name == "sort.SliceStable", strings.HasPrefix(c.Name, "slices.SortFunc"), strings.HasPrefix(c.Name, "slices.SortStableFunc"):
+				sorts++
+				for _, a := range c.Common.Args {
+					if mc, ok := a.(*ssa.MakeClosure); ok && comparesStrings(mc.Fn.(*ssa.Function)) {
+						total = true
+					}
+					if fn, ok := a.(*ssa.Function); ok && comparesStrings(fn) {
+						total = true
+					}
+				}
+			}
+		}
+		r.check(sorts > 0 && total, "PathParam.VisitAll:total-order", r.fpos(v), "the keys are sorted with a comparator that compares the keys themselves",
+			"the path parameters are visited in an order that leaves keys of equal length in map order: with {ns: \"acme:id\", id: \"7\"} on /api/:ns/items/:id the URL is /api/acme:id/items/7 or /api/acme7/items/7 from one call to the next")
 		r.check(bad == "", "PathParam.VisitAll:ordered", r.fpos(v), "the callback is not invoked from inside a map iteration (keys are collected and ordered first)",
 			"path parameters are handed to the substitution in map-iteration order ("+bad+"): with the names id and idx, /u/:idx becomes /u/2 or /u/1x from one call to the next — the request is not a deterministic function of the configuration")
 	})
